@@ -298,6 +298,44 @@ def _warm_pair():
     return [(1, 2, 0, 3, zb, 4, 1, y2, 9, 3, zb2, 4) for zb in (False, True) for zb2 in (False, True) for y2 in (2, 5)]
 
 
+@spec_class(bootstrap=True)
+class FP:
+    a: int = Attr(default=1, compare=False, repr=False)
+    b: int = 0
+    c: int = Attr(default=2, repr=False)
+
+
+@spec_class(bootstrap=True)
+class FS(FP):  # re-defaults inherited attributes without re-declaring them: compare / repr flags are those declared
+    a = 5
+    c = 6
+    d: int = 0
+
+
+@spec_class
+class FL(FP):  # the same, lazily bootstrapped
+    a = 5
+    c = 6
+    d: int = 0
+
+
+def make_flags(lazy):
+    cls = FL if lazy else FS
+
+    def h(a1: int, a2: int, b1: int, b2: int, c1: int, c2: int) -> str:
+        u, v = cls(a=a1, b=b1, c=c1), cls(a=a2, b=b2, c=c2)
+        want = (b1 == b2) and (c1 == c2)
+        check(bool(u == v) == want and bool(v == u) == want, "equality holds exactly when all compare-enabled attributes are equal, irrespective of compare=False attributes (flags declared on the parent, default overridden in the subclass)", "C10/flags-inherited/eq", lambda: f"{u!r} == {v!r} -> {u == v}; want {want}")
+        text = repr(cls())
+        check("a=" not in text and "c=" not in text and "b=" in text and "d=" in text, "repr lists exactly the repr-enabled attributes", "C10/flags-inherited/repr", lambda: text)
+        w = cls()
+        check(w.a == 5 and w.c == 6, "the overriding default is used", "C10/flags-inherited/default", lambda: repr((w.a, w.c)))
+        return "ok"
+
+    h.__name__ = f"flags_{'lazy' if lazy else 'eager'}"
+    return h
+
+
 def obligations(tier):
     obs = []
     T = 150 if tier == "quick" else 600
@@ -313,5 +351,7 @@ def obligations(tier):
         obs.append(Ob(f"C10.eq.copy.{k}", make_eq_copy(k), [(1, 2, 3, 4, zb, 5) for zb in (False, True)], "deepcopy(x)==x and E(**attrs_of(x))==x for symbolic attribute values", expect={"ok"}, timeout=T))
     for sub in ("spec", "plain"):
         obs.append(Ob(f"C10.eq.sub.{sub}", make_eq_sub(sub), [(1, 2, 1, 2, 0), (1, 2, 1, 3, 1)], f"class E vs its {sub} subclass; symbolic x,y", expect={"ok"}, timeout=T))
+    for lazy in (False, True):
+        obs.append(Ob(f"C10.flags-inherited.{'lazy' if lazy else 'eager'}", make_flags(lazy), [(1, 2, 3, 3, 4, 4), (1, 1, 3, 4, 4, 4), (1, 1, 3, 3, 4, 5)], "spec subclass overriding the defaults of inherited attributes declared compare=False / repr=False on the parent (no re-annotation); symbolic attribute values; == both ways, repr contents", expect={"ok"}, timeout=T))
     obs.append(Ob("C10.repr", make_repr(), [(a, b, 0, a % 2 == 0, (a + b) % 3, t, a % 2) for a in range(NV) for b in (0, 1) for t in (-1, 50, 200)], f"R instance whose first attribute is drawn (symbolic index) from a pool of {NV} values with two/one derived companions in the other attributes (missing, self-reference, nested/keyed spec with missing key, long / newline / quote strings, containers, bound methods), `third` missing or set, indent in {{None,True,False}}, indent_threshold symbolic in [-1,200], via repr() or __repr__(...); the value kind 'instance inside a list inside itself' only in the concrete sweep (CrossHair's list repr lacks the recursion guard)", expect={"flat", "indented"}, timeout=T * 2, stub_repr=False))
     return obs
